@@ -162,8 +162,10 @@ pub fn gen_spec(rng: &mut Rng, o: &GenOpts) -> (Spec, PatClass) {
     // exceed 16-bit ranges (one unit occurs > 65 536 times) while two other units have close
     // counts concentrated at opposite ends of the input order
     if !o.tiny && o.wide_max >= 300 && rng.chance(1, 400) {
-        let n = rng.range(4, 7);
-        let per = 70_000 / n + rng.range(1, 2000);
+        let single = rng.chance(1, 3);
+        let n = if single { 2 } else { rng.range(4, 7) };
+        // `single`: one pattern alone is longer than 2^16 units (length fields, depth counters)
+        let per = if single { 66_000 + rng.range(1, 3000) } else { 70_000 / n + rng.range(1, 2000) };
         let (b, c) = if variant == Variant::Charwise && rng.chance(1, 2) { ("é", "世") } else { ("b", "c") };
         let mut pats: Vec<Vec<u8>> = vec![];
         let close = rng.range(20, 60);
